@@ -113,7 +113,17 @@ fn legacy_programs(n: usize) -> Vec<P> {
         P::HandOff(s0(), s0(), s0()),
     ];
     let g = Grammar { unary: false, abortable: false, manual: false, trigger: true, sibling_abort: false, all3: true };
-    dsl::terms_up_to(n, &atoms, g).into_iter().filter(app::legacy_ok).collect()
+    let mut v: Vec<P> = dsl::terms_up_to(n, &atoms, g).into_iter().filter(app::legacy_ok).collect();
+    // capabilities whose events are mapped (Capability::map_event / channel map_input), one and two levels
+    let small: Vec<P> = dsl::terms_up_to(n.min(2), &atoms, g).into_iter().filter(app::legacy_ok).collect();
+    for p in small {
+        v.push(P::MapEvent(Box::new(p.clone())).normalized());
+        v.push(P::MapEvent(Box::new(P::MapEvent(Box::new(p.clone())))).normalized());
+        v.push(P::All(vec![P::MapEvent(Box::new(p.clone())), P::Burst(s0(), s0())]).normalized());
+    }
+    v.sort();
+    v.dedup();
+    v
 }
 
 fn burst_programs() -> Vec<P> {
